@@ -16,19 +16,19 @@ EXTENDS ClientBatch, TLC, Json
 
 CONSTANTS NShardsSet, ReqLimits, ByteLimits, Lingers, DeadSets,
           Templates,     \* call templates the application chooses from
-          MaxCalls, MaxFail, MaxStream, NKeys,
+          MaxCalls, MaxFail, MaxBreak, MaxStream, NKeys,
           Eager,
           Export         \* "none" | "steps" | "runs"
 
-VARIABLES nfail, hist
-mvars == <<cfg, calls, q, cur, fly, ans, agg, done, res, sst, emitted, wire, chn, gcl, fin, mrg, out, nfail, hist>>
-View  == <<cfg, calls, q, cur, fly, ans, agg, done, res, sst, emitted, wire, chn, gcl, fin, mrg, out, nfail>>
+VARIABLES nfail, nbreak, hist
+mvars == <<cfg, calls, q, cur, fly, ans, agg, done, res, sent, part, sst, emitted, wire, chn, gcl, fin, mrg, out, nfail, nbreak, hist>>
+View  == <<cfg, calls, q, cur, fly, ans, agg, done, res, sent, part, sst, emitted, wire, chn, gcl, fin, mrg, out, nfail, nbreak>>
 
 Configs == {c \in [n : NShardsSet, maxReq : ReqLimits, maxBytes : ByteLimits, linger : Lingers, dead : DeadSets] :
                 c.dead \subseteq 1..c.n}
 
 MInit == /\ \E c0 \in Configs : Init(c0)
-         /\ nfail = 0 /\ hist = <<>>
+         /\ nfail = 0 /\ nbreak = 0 /\ hist = <<>>
 
 \* a template can be issued on this cluster: its shard exists, batched calls avoid dead leaders
 \* (their retries would only end with the request timeout)
@@ -36,18 +36,20 @@ Allowed(t) == /\ (~Fanout(t) => t.sh \in Shards)
               /\ (KindOf(t) # "s" => Targets(t) \cap cfg.dead = {})
 
 \* observable state: requests the servers hold unanswered, completions, delivered items
-ObsNow  == [fly |-> fly, done |-> done, res |-> res, out |-> out]
-ObsNext == [fly |-> fly', done |-> done', res |-> res', out |-> out']
+ObsNow  == [fly |-> fly, done |-> done, res |-> res, out |-> out, sent |-> sent]
+ObsNext == [fly |-> fly', done |-> done', res |-> res', out |-> out', sent |-> sent']
 NoT == [op |-> "", cmp |-> "", pk |-> FALSE, sh |-> 0, size |-> 0, tbl |-> 0]
 \* environment steps carry the observable state *before* the step (in Eager mode a quiescent state the
 \* replayer can wait for); client-internal steps are recorded by name only
 Log(a, c, s, k, t, key, how) ==
-    hist' = Append(hist, [a |-> a, c |-> c, s |-> s, k |-> k, t |-> t, key |-> key, how |-> how, pre |-> ObsNow])
+    hist' = Append(hist, [a |-> a, c |-> c, s |-> s, k |-> k, t |-> t, key |-> key, how |-> how, n |-> 0, pre |-> ObsNow])
+LogN(a, s, k, n) ==
+    hist' = Append(hist, [a |-> a, c |-> 0, s |-> s, k |-> k, t |-> NoT, key |-> <<>>, how |-> "", n |-> n, pre |-> ObsNow])
 LogI(a, c, s, k) == hist' = Append(hist, [a |-> a, c |-> c, s |-> s, k |-> k])
 CfgRec == [n |-> cfg.n, maxReq |-> cfg.maxReq, maxBytes |-> cfg.maxBytes, linger |-> cfg.linger, dead |-> cfg.dead]
 
 MInternal ==
-    /\ UNCHANGED nfail
+    /\ UNCHANGED <<nfail, nbreak>>
     /\ \/ \E s \in Shards, k \in Kinds : Take(s, k) /\ LogI("Take", 0, s, k)
        \/ \E c \in CallIds :
             \/ \E s \in Shards : Fwd(c, s) /\ LogI("Fwd", c, s, "")
@@ -58,19 +60,24 @@ MInternal ==
 MEnv ==
     \/ /\ Len(calls) < MaxCalls
        /\ \E t \in Templates : Allowed(t) /\ Issue(t) /\ Log("Issue", Len(calls) + 1, 0, "", t, <<>>, "")
-       /\ UNCHANGED nfail
+       /\ UNCHANGED <<nfail, nbreak>>
     \/ /\ IF Eager THEN TimerAll /\ Log("Timer", 0, 0, "", NoT, <<>>, "")
                    ELSE \E s \in Shards, k \in Kinds : Timer(s, k) /\ Log("Timer", 0, s, k, NoT, <<>>, "")
-       /\ UNCHANGED nfail
+       /\ UNCHANGED <<nfail, nbreak>>
     \/ \E s \in Shards, k \in Kinds :
-         \/ Respond(s, k) /\ Log("Respond", 0, s, k, NoT, <<>>, "") /\ UNCHANGED nfail
-         \/ nfail < MaxFail /\ Fail(s, k) /\ Log("Fail", 0, s, k, NoT, <<>>, "") /\ nfail' = nfail + 1
+         \/ Respond(s, k) /\ Log("Respond", 0, s, k, NoT, <<>>, "") /\ UNCHANGED <<nfail, nbreak>>
+         \/ nfail < MaxFail /\ Fail(s, k) /\ Log("Fail", 0, s, k, NoT, <<>>, "") /\ nfail' = nfail + 1 /\ UNCHANGED nbreak
+         \* a retried request comes back after a real-time backoff: the replay generator lets that happen only
+         \* while no linger timer is running (it would expire meanwhile)
+         \/ /\ nbreak < MaxBreak /\ (Eager => ~TimerAllEn)
+            /\ \E n \in 0..Len(fly[s][k]) : Break(s, k, n) /\ LogN("Break", s, k, n)
+            /\ nbreak' = nbreak + 1 /\ UNCHANGED nfail
     \/ \E c \in CallIds, s \in Shards :
          \/ /\ Len(emitted[c][s]) < MaxStream
             /\ \E i \in 1..NKeys : SrvEmit(c, s, KeyList[i]) /\ Log("SEmit", c, s, "", NoT, KeyList[i], "")
-            /\ UNCHANGED nfail
-         \/ SrvEnd(c, s, "eof") /\ Log("SEnd", c, s, "", NoT, <<>>, "eof") /\ UNCHANGED nfail
-         \/ nfail < MaxFail /\ SrvEnd(c, s, "err") /\ Log("SEnd", c, s, "", NoT, <<>>, "err") /\ nfail' = nfail + 1
+            /\ UNCHANGED <<nfail, nbreak>>
+         \/ SrvEnd(c, s, "eof") /\ Log("SEnd", c, s, "", NoT, <<>>, "eof") /\ UNCHANGED <<nfail, nbreak>>
+         \/ nfail < MaxFail /\ SrvEnd(c, s, "err") /\ Log("SEnd", c, s, "", NoT, <<>>, "err") /\ nfail' = nfail + 1 /\ UNCHANGED nbreak
 
 MNext == IF Eager /\ InternalEn THEN MInternal ELSE (MInternal \/ MEnv)
 
@@ -89,6 +96,10 @@ TRead  == { T("get", "EQ", FALSE, 1, 0, 0), T("get", "EQ", TRUE, 2, 0, 0), T("ge
             T("get", "LOWER", FALSE, 0, 0, 2), T("get", "HIGHER", FALSE, 0, 0, 3),
             T("get", "FLOOR", FALSE, 0, 0, 0) }
 TReadSmall == { T("get", "EQ", FALSE, 1, 0, 0), T("get", "FLOOR", FALSE, 0, 0, 1), T("get", "HIGHER", FALSE, 0, 0, 2) }
+\* several single-shard gets on one shard (own results all different) and one fan-out get: the batches whose
+\* attempt breaks after a prefix of the responses (retry path of read_batch.go)
+TRetry == { T("get", "EQ", FALSE, 1, 0, 0), T("get", "EQ", TRUE, 1, 0, 0), T("get", "CEILING", TRUE, 1, 0, 0),
+            T("get", "FLOOR", FALSE, 0, 0, 1) }
 TStream == { T("list", "EQ", TRUE, 1, 0, 0), T("list", "EQ", FALSE, 0, 0, 0),
              T("scan", "EQ", TRUE, 1, 0, 0), T("scan", "EQ", TRUE, 2, 0, 0), T("scan", "EQ", FALSE, 0, 0, 0) }
 TMixed == { T("put", "EQ", FALSE, 1, 10, 0), T("del", "EQ", TRUE, 2, 8, 0), T("delrange", "EQ", FALSE, 0, 16, 0),
